@@ -173,12 +173,13 @@ type Ctx struct {
 	defs     map[string]string // defining term -> constant (global definitional extensions)
 	views    map[string]string // memory|slice -> view array constant
 	stores   map[string]storeInfo
+	viewsByMem map[string][]string
 }
 
 type storeInfo struct{ base, idx, val string }
 
 func newCtx() *Ctx {
-	c := &Ctx{declared: map[string]bool{}, structs: map[string]*types.Struct{}, strLits: map[string]string{}, typeTags: map[string]int{}, notes: map[string]bool{}, defs: map[string]string{}, views: map[string]string{}, stores: map[string]storeInfo{}}
+	c := &Ctx{declared: map[string]bool{}, structs: map[string]*types.Struct{}, strLits: map[string]string{}, typeTags: map[string]int{}, notes: map[string]bool{}, defs: map[string]string{}, views: map[string]string{}, stores: map[string]storeInfo{}, viewsByMem: map[string][]string{}}
 	c.decl("(declare-datatypes ((Slice 0)) (((mk-slice (s-arr Int) (s-off Int) (s-len Int) (s-cap Int)))))")
 	c.decl("(declare-datatypes ((Iface 0)) (((mk-iface (i-tag Int) (i-val Int)))))")
 	c.decl("(declare-sort Str 0)")
